@@ -38,10 +38,15 @@ var fixedTokens = map[string]bool{"": true, ".": true, "..": true, ".git": true,
 	"modules": true, ".terraformignore": true, "pax_global_header": true, "terraform-sources.json": true}
 
 // Gamma maps abstract name tokens to real path segments.
+// RuleFileC is the content id of a .terraformignore file; its text travels
+// with the case.
+const RuleFileC = 50
+
 type Gamma struct {
-	Seed  int64
-	names map[string]string
-	inv   map[string]string
+	RuleText []byte // text of content id RuleFileC for this case
+	Seed     int64
+	names    map[string]string
+	inv      map[string]string
 }
 
 var decorations = []func(r *rand.Rand, tok string) string{
@@ -218,11 +223,29 @@ func ContentBack(b []byte) int {
 	return c
 }
 
-func TimeOf(t int) time.Time { return Base.Add(time.Duration(t) * time.Second) }
+// TimeOf: t < 1000 is whole seconds after Base; t >= 1000 encodes
+// sec*10 + tenths as 1000 + sec*10 + tenths (fractional mtimes for Pack).
+func TimeOf(t int) time.Time {
+	if t >= 1000 {
+		x := t - 1000
+		return Base.Add(time.Duration(x/10)*time.Second + time.Duration(x%10)*100*time.Millisecond)
+	}
+	return Base.Add(time.Duration(t) * time.Second)
+}
+func (g *Gamma) ContentBack(b []byte) int {
+	if g.RuleText != nil && len(b) > 0 && bytes.Equal(b, g.RuleText) {
+		return RuleFileC
+	}
+	return ContentBack(b)
+}
+
 func TimeBack(mt time.Time) int {
 	d := mt.Sub(Base)
 	if d >= 0 && d < 90*time.Second && mt.Nanosecond() == 0 {
 		return int(d / time.Second)
+	}
+	if d >= 0 && d < 90*time.Second && mt.Nanosecond()%100000000 == 0 {
+		return 1000 + int(d/time.Second)*10 + mt.Nanosecond()/100000000
 	}
 	return NOW
 }
@@ -242,7 +265,11 @@ func (g *Gamma) Setup(root string, fs []PN) error {
 		case "d":
 			err = os.Mkdir(p, 0755)
 		case "f":
-			err = os.WriteFile(p, Content(pn.N.C), 0644)
+			if pn.N.C == RuleFileC {
+				err = os.WriteFile(p, g.RuleText, 0644)
+			} else {
+				err = os.WriteFile(p, Content(pn.N.C), 0644)
+			}
 		case "l":
 			err = os.Symlink(g.Spell(root, pn.N.Tgt), p)
 		case "p":
@@ -307,7 +334,7 @@ func (g *Gamma) Snapshot(root string) map[string]Node {
 				if err != nil {
 					n.C = -2
 				} else {
-					n.C = ContentBack(b)
+					n.C = g.ContentBack(b)
 				}
 			default:
 				n.K = "?"
